@@ -33,6 +33,8 @@ func runC04(c *Ctx) {
 	c.Rule("C04.O11", "E4", "flush makes progress: an explicit success return of a head-writer (buffer / file) is behind the pop of the head on every path, so the drain loop cannot see the same finished head again", 1)
 	c.Rule("C04.O12", "E5", "whether something is queued is decided on the queue itself, never on the byte counter Conn.left (same rule as C17.O6)", 1)
 	c17Readers(c, "C04.O12")
+	c.Rule("C04.O13", "E4", "no empty entry is ever queued: the buffer-enqueue function appends to the queue only behind len(buf) != 0 (flush's buffer writer pops an entry only after a positive count, so an empty entry is never removed and flush spins on it)", 1)
+	c.Rule("C04.O14", "E4", "flush never leaves with an empty queue and the write-interest flag still set: its queue-empty success returns pass the disarm helper (a dialer that connected at once starts with the flag set and nothing queued)", 1)
 	c.Rule("C04.O8", "E4", "one-shot mode: every dispatch of an event for a live connection re-registers the descriptor (ResetPollerEvent, the async read job, a custom OnRead, or close) before the next event is awaited", 1)
 
 	core := c.Core()
@@ -213,6 +215,83 @@ func runC04(c *Ctx) {
 			bad = fmt.Sprintf("expected exactly one call of flush, found %d", n)
 		}
 		c.Cond(bad == "", "C04.O5", "callers of flush", "", "readWriteLoop on the write-event edge", bad)
+	}
+
+	// ------------------------------------------------------------------ O13
+	if eb := c.Core().EnqueueBuf; eb != nil {
+		bad := ""
+		n := 0
+		prm := paramOfType(eb, "[]byte")
+		for _, g := range ir.WithClosures(eb) {
+			gi := c.P.Info(g)
+			for _, st := range c.P.StoresTo(g, fConnWriteList) {
+				n++
+				nonEmpty := func(fi *ir.FnInfo, at ssa.Instruction) bool {
+					return fi.HasFact(at, func(ft ir.Fact) bool {
+						e, zero, ok := ir.ZeroTest(ft.Cond, ft.Truth)
+						if !ok || zero {
+							return false
+						}
+						x, isLen := ir.IsLenOf(ir.Resolve(e))
+						return isLen && prm != nil && ir.Resolve(x) == ssa.Value(prm)
+					})
+				}
+				ok := nonEmpty(gi, st)
+				if !ok && g != eb {
+					// the append sits in a local closure: every call of the closure is behind the test
+					ok = true
+					ebi := c.P.Info(eb)
+					nc := 0
+					for _, b := range eb.Blocks {
+						for _, in := range b.Instrs {
+							if cs, isCall := ir.AsCall(in); isCall {
+								if mc, isMC := ir.Resolve(cs.Common.Value).(*ssa.MakeClosure); isMC && mc.Fn == ssa.Value(g) {
+									nc++
+									if !nonEmpty(ebi, in) {
+										ok = false
+									}
+								}
+							}
+						}
+					}
+					if nc == 0 {
+						ok = false
+					}
+				}
+				if !ok {
+					bad = "an entry is appended to the write queue at " + c.Pos(st) + " without knowing that the buffer is non-empty: Writev with an empty slice behind a backlog queues an entry that flush's buffer writer never removes (it pops only after a positive count), so the poller spins on it holding the connection mutex"
+				}
+			}
+		}
+		if n == 0 {
+			bad = "no append to the write queue found in the enqueue function"
+		}
+		c.Cond(bad == "", "C04.O13", fnKey(c.P, eb, "no empty entry queued"), c.FnPos(eb), fmt.Sprintf("%d append(s) behind len(buf) != 0", n), bad)
+	}
+
+	// ------------------------------------------------------------------ O14
+	if fn := c.Fn("C04.O14", "(*nbio.Conn).flush"); fn != nil && connDisarm != nil {
+		fi := c.P.Info(fn)
+		bad := ""
+		n := 0
+		first := fn.Blocks[0].Instrs[0]
+		vis, _ := fi.Reach([]ssa.Instruction{first}, func(in ssa.Instruction) bool { return callsFn(in, connDisarm) })
+		for _, r := range fi.Returns() {
+			if !ir.IsNilConst(ir.RetVals(r)[0]) {
+				continue
+			}
+			if !fi.HasFact(r, func(ft ir.Fact) bool { e, ok := c.queueTest(ft); return ok && e }) {
+				continue
+			}
+			n++
+			if vis[r] {
+				bad = "flush returns at " + c.Pos(r) + " with an empty queue without calling " + c.P.FuncName(connDisarm) + ": the isWAdded flag stays set (a dialer that connected at once is registered with it set), the one-shot re-arm then registers read-only, and the next backlog's modWrite is skipped"
+			}
+		}
+		if n == 0 && bad == "" {
+			bad = "no queue-empty success return found"
+		}
+		c.Cond(bad == "", "C04.O14", fnKey(c.P, fn, "queue-empty returns disarm"), c.FnPos(fn), fmt.Sprintf("%d queue-empty success return(s), all behind the disarm helper", n), bad)
 	}
 
 	// ------------------------------------------------------------------ O11
